@@ -880,6 +880,20 @@ def gen_migrate_table():
     def lst(cs, tag):
         return "[" + ", ".join('{ dst := "%s", src := %d, fld := "%s", len := %s, dstLen := %s, srcLen := %s }' % (
             c[0], c[1], c[2], pv["mg_%s%d_len" % (tag, k)], pv["mg_%s%d_dst" % (tag, k)], pv["mg_%s%d_src" % (tag, k)]) for k, c in enumerate(cs)) + "]"
+    # factory_defaults: what is put aside before the record is zeroed and put back afterwards (name, size expression)
+    try:
+        fd = n[n.index("factory_defaults(char save) {"):]
+        fd = fd[:fd.index("supla_esp_cfg.CfgButtonType =")]
+        before, after = fd.split("memset(&supla_esp_cfg, 0, sizeof(SuplaEspCfg));", 1)
+    except ValueError:
+        raise ExtractError("supla_esp_cfg.c: factory_defaults not recognised")
+    fsaved = re.findall(r"memcpy\((\w+), supla_esp_cfg\.(\w+), (\w+)\);", before)
+    fback = re.findall(r"memcpy\(supla_esp_cfg\.(\w+), (\w+), (\w+)\);", after)
+    if any(a != b for a, b, _ in fsaved) or any(a != b for a, b, _ in fback):
+        raise ExtractError("supla_esp_cfg.c: factory_defaults keeps a field under another name")
+    fkept = [(a, sz) for a, _, sz in fsaved if (a, a, sz) in fback]
+    pvf = run_probe("p_fd", "".join('P("fd_%s", %s); P("fd_%s_f", sizeof(supla_esp_cfg.%s));\n' % (a, sz, a, a) for a, sz in fkept),
+                    includes_c=["supla_esp.h", "supla_esp_cfg.h"])
     out = ["/- GENERATED by tools/extract.py from /repo/src/user/supla_esp_cfg.c (supla_esp_cfg_init) - do not edit -/",
            "import SuplaVerif.Model.Migrate", "namespace SuplaVerif.Gen", "",
            "def migCommon : List FieldCopy := " + lst(common, "c"),
@@ -889,6 +903,8 @@ def gen_migrate_table():
            "def mig67Zeroed : List String := [" + ", ".join('"%s"' % z for z in zeroed) + "]",
            "/-- ... and these elements are carried over -/",
            "def mig67Kept : List String := [" + ", ".join('"%s"' % k for k, _ in kept) + "]",
+           "/-- factory_defaults: fields copied aside before the record is zeroed and copied back: (name, bytes copied, field size) -/",
+           "def factoryKept : List (String × Nat × Nat) := [" + ", ".join('("%s", %s, %s)' % (a, pvf["fd_" + a], pvf["fd_%s_f" % a]) for a, _ in fkept) + "]",
            "", "end SuplaVerif.Gen", ""]
     write_if_changed(os.path.join(C.LEAN, "SuplaVerif", "Gen", "MigrateTable.lean"), "\n".join(out))
 
